@@ -40,14 +40,19 @@ fn available(confirmed: &[u64], n_extra: u64) -> Vec<u64> {
     push(F, !has(D) && !has(D2));
     push(D, !has(F));
     push(D2, !has(F));
-    push(M, has(F) && !has(U) && !has(UC) && !has(UR) && !has(UN));
-    push(U, has(F) && !has(M) && !has(UC) && !has(UR) && !has(UN));
-    push(UC, has(F) && !has(M) && !has(U) && !has(UR) && !has(UN));
-    push(UN, has(F) && !has(M) && !has(U) && !has(UR) && !has(UC));
+    push(M, has(F) && !has(U) && !has(UC) && !has(UN) && !has(UR) && !has(UP));
+    push(U, has(F) && !has(M) && !has(UC) && !has(UN) && !has(UR) && !has(UP));
+    push(UC, has(F) && !has(M) && !has(U) && !has(UN) && !has(UR) && !has(UP));
+    push(UN, has(F) && !has(M) && !has(U) && !has(UC) && !has(UR) && !has(UP));
     push(SC, has(UC));
+    // the counterparty's previous, not yet revoked commitment with an HTLC we offered (its point must be available)
+    push(UP, has(F) && !has(M) && !has(U) && !has(UC) && !has(UN) && !has(UR));
+    push(SP, has(UP));
+    push(TP, has(UP));
+    push(VP, has(TP));
     // breach: an old revoked counterparty commitment (only where the source survives it, finding F20)
     if super::c13::SPENDABLE_FALLBACK {
-        push(UR, has(F) && !has(M) && !has(U) && !has(UC) && !has(UN));
+        push(UR, has(F) && !has(M) && !has(U) && !has(UC) && !has(UN) && !has(UP));
         push(SR, has(UR));
         push(JR, has(UR));
     }
@@ -152,6 +157,33 @@ impl Group for C14 {
             mk_t("s", &[("add", "c", &[F, UC]), ("add", "s", &[SC]), ("remove", "c", &[SC])]),
             // closed by a counterparty commitment that pays us nothing: swept from the start; reorg of the close
             mk_t("a", &[("add", "c", &[F]), ("add", "s", &[UN]), ("add", "c", &[]), ("remove", "c", &[]), ("remove", "s", &[UN]), ("add", "c", &[UN])]),
+            // a reorg exactly as deep as the header window (MAX_REORG_SIZE = 100), then the chain grows again
+            {
+                let mut v = vec![typed_init("s")];
+                v.push(line("add", "c", &[F]));
+                v.push("addn 100".to_string());
+                v.push("removen 100".to_string());
+                v.push(line("add", "c", &[M]));
+                v
+            },
+            // an outpoint seen spent before a restart must still be reported in the reverse watches after it: mutual close,
+            // restart, reorg of the close with follower-built compact proofs (several blocks, so that both proof styles occur)
+            {
+                let mut v = vec![typed_init("s")];
+                v.push(line("add", "c", &[F]));
+                v.push(line("add", "c", &[M]));
+                v.push("restart".to_string());
+                v.push(line("remove", "c", &[M]));
+                v.push(line("add", "c", &[M]));
+                v.push("restart".to_string());
+                v.push(line("add", "c", &[]));
+                v.push(line("remove", "c", &[]));
+                v.push(line("remove", "c", &[M]));
+                v.push(line("add", "c", &[U]));
+                v
+            },
+            // closed by the counterparty's previous, not yet revoked commitment carrying an HTLC; sweeps; reorg through them
+            mk_t("a", &[("add", "c", &[F]), ("add", "c", &[UP]), ("add", "s", &[SP, TP]), ("add", "c", &[VP]), ("remove", "c", &[VP]), ("remove", "c", &[SP, TP]), ("remove", "c", &[UP]), ("add", "c", &[UP, TP])]),
             // everything in one block
             mk(&[("add", "c", &[F, U, S, T12, V12A, V12B]), ("remove", "c", &[F, U, S, T12, V12A, V12B]), ("add", "c", &[D])]),
         ]
@@ -196,13 +228,15 @@ impl Group for C14 {
             // directed family B: funding, unilateral close, then the sweeps (our output, HTLC spends, second-level
             // spends) spread over several blocks until everything is swept; reorg of any suffix; optionally re-mined
             2 | 3 | 4 => {
+                // which commitment closes the channel: ours, the counterparty's current one, or its previous unrevoked one
+                let close_tx = match rng.below(4) { 0 | 1 => U, 2 => UP, _ => UC };
                 let mut first = vec![F];
-                if rng.chance(1, 3) { first.push(U); }
+                if rng.chance(1, 3) { first.push(close_tx); }
                 ops.push(line("add", delivery(rng), &first));
                 plan.blocks.push(first.clone());
-                if !first.contains(&U) {
-                    ops.push(line("add", delivery(rng), &[U]));
-                    plan.blocks.push(vec![U]);
+                if !first.contains(&close_tx) {
+                    ops.push(line("add", delivery(rng), &[close_tx]));
+                    plan.blocks.push(vec![close_tx]);
                 }
                 let mut n_sweep_blocks = 0u64;
                 loop {
@@ -257,6 +291,7 @@ impl Group for C14 {
         let steps = rng.range(3, if tier == Tier::Quick { 9 } else { 16 });
         let aggressive = rng.chance(2, 3);
         for _ in 0..steps {
+            if rng.chance(1, 5) { ops.push("restart".to_string()); }
             if rng.chance(1, 6) {
                 // a block of the competing branch arrives before the disconnections: refused as orphan
                 let blk = if rng.chance(1, 2) { vec![X0 + 3] } else { vec![] };
@@ -307,6 +342,61 @@ impl Group for C14 {
                     w = Some(nw);
                     chain.clear();
                     format!("ok {}", d)
+                }
+                ["restart"] => {
+                    let wd = w.as_mut().expect("init first");
+                    match wd.restart() {
+                        StepResult::Ok => {
+                            co.tags.insert("restart".into());
+                            let view = strip_sb(&wd.digest());
+                            let reference = expected_view(wd, &chain);
+                            if view != reference {
+                                co.violations.push(Violation { kind: "view-differs-from-chain".into(),
+                                    desc: format!("after the restart the monitor shows [{}] but the surviving chain implies [{}]", view, reference), at: i });
+                            }
+                            format!("ok {}", wd.digest())
+                        }
+                        StepResult::Err(e) | StepResult::Panic(e) => {
+                            dead = true;
+                            co.violations.push(Violation { kind: "restart-abort".into(), desc: format!("restore_node failed: {}", e), at: i });
+                            "panic".to_string()
+                        }
+                    }
+                }
+                [dirn @ ("addn" | "removen"), k] => {
+                    // k empty blocks connected / disconnected in a row (compact), monitors at the end
+                    let wd = w.as_mut().expect("init first");
+                    let k: usize = k.parse().unwrap();
+                    let mut res = String::new();
+                    for j in 0..k {
+                        let r = if *dirn == "addn" { wd.add_block(&[], false) } else { wd.remove_block(&[]) };
+                        match r {
+                            StepResult::Ok => { if *dirn == "addn" { chain.push(vec![]); } else { chain.pop(); } }
+                            StepResult::Err(e) => {
+                                co.violations.push(Violation { kind: "valid-block-rejected".into(),
+                                    desc: format!("{}: request {} of {} (a valid {} with a correct proof) was rejected: {}", op, j + 1, k, if *dirn == "addn" { "connection" } else { "disconnection" }, e), at: i });
+                                res = format!("err {}", wd.digest());
+                                break;
+                            }
+                            StepResult::Panic(msg) => {
+                                dead = true;
+                                co.violations.push(Violation { kind: if *dirn == "removen" { "reorg-abort".into() } else { "add-abort".into() }, desc: format!("{} panicked: {}", op, msg), at: i });
+                                res = "panic".into();
+                                break;
+                            }
+                        }
+                    }
+                    if res.is_empty() {
+                        co.tags.insert(format!("{}:{}", dirn, k));
+                        let view = strip_sb(&wd.digest());
+                        let reference = expected_view(wd, &chain);
+                        if view != reference {
+                            co.violations.push(Violation { kind: "view-differs-from-chain".into(),
+                                desc: format!("after {} the monitor shows [{}] but the surviving chain implies [{}]", op, view, reference), at: i });
+                        }
+                        res = format!("ok {}", wd.digest());
+                    }
+                    res
                 }
                 ["orphan", delivery, rest @ ..] => {
                     let wd = w.as_mut().expect("init first");
@@ -363,7 +453,7 @@ impl Group for C14 {
                             if *dir == "add" {
                                 // the decoder is an input of the model; check it against what the harness built: the output
                                 // the closing transaction pays to us and its HTLC outputs must be the ones the monitor tracks
-                                for cid in [U, UC, UR, UN] {
+                                for cid in [U, UC, UR, UN, UP] {
                                     if ids.contains(&cid) {
                                         let st = wd.state_json();
                                         let co_ = &st["closing_outpoints"];
@@ -371,7 +461,7 @@ impl Group for C14 {
                                         let seen_our = co_["our_output"].get(0).and_then(|x| x.as_u64()).map(|x| x as u32);
                                         let mut seen_h: Vec<u32> = co_["htlc_outputs"].as_array().map(|a| a.iter().filter_map(|x| x.as_u64()).map(|x| x as u32).collect()).unwrap_or_default();
                                         seen_h.sort();
-                                        co.tags.insert(format!("close:{}:{}", if cid == U { "holder-commitment" } else if cid == UC { "counterparty-commitment" } else if cid == UN { "counterparty-commitment-nothing-ours" } else { "revoked-counterparty-commitment" }, wd.ctype));
+                                        co.tags.insert(format!("close:{}:{}", if cid == U { "holder-commitment" } else if cid == UC { "counterparty-commitment" } else if cid == UN { "counterparty-commitment-nothing-ours" } else if cid == UP { "counterparty-previous-unrevoked-commitment" } else { "revoked-counterparty-commitment" }, wd.ctype));
                                         if seen_our != bo || seen_h != bh {
                                             co.violations.push(Violation {
                                                 kind: "our-output-not-recognised".into(),
@@ -392,13 +482,13 @@ impl Group for C14 {
                                     relevant_reorg = true;
                                     co.tags.insert("remove:relevant".into());
                                 }
-                                for (id, tag) in [(F, "funding"), (D, "doublespend"), (D2, "doublespend"), (M, "mutual"), (U, "unilateral"), (UC, "unilateral-cp"), (UN, "unilateral-cp"), (S, "sweep"), (SC, "sweep"),
+                                for (id, tag) in [(F, "funding"), (D, "doublespend"), (D2, "doublespend"), (M, "mutual"), (U, "unilateral"), (UC, "unilateral-cp"), (UN, "unilateral-cp"), (UP, "unilateral-cp"), (SP, "sweep"), (TP, "htlc"), (VP, "second-level"), (S, "sweep"), (SC, "sweep"),
                                                   (T1, "htlc"), (T2, "htlc"), (T12, "htlc"), (V1, "second-level"), (V2, "second-level"),
                                                   (V12A, "second-level"), (V12B, "second-level")] {
                                     if ids.contains(&id) { co.tags.insert(format!("reorg-of:{}", tag)); }
                                 }
                             }
-                            if *dir == "remove" && ids.iter().any(|x| [T1, T2, T12, V1, V2, V12A, V12B].contains(x)) {
+                            if *dir == "remove" && ids.iter().any(|x| [T1, T2, T12, V1, V2, V12A, V12B, TP, VP].contains(x)) {
                                 htlc_reorg_seen = true;
                             }
                             // property monitor: view == fresh replay of the surviving chain
